@@ -16,6 +16,8 @@ mod merkle;
 mod protocol;
 mod sched;
 mod streams;
+mod transport;
+mod wire;
 
 pub fn config_name() -> &'static str {
     match (cfg!(feature = "concurrent"), cfg!(feature = "async")) {
@@ -34,6 +36,7 @@ pub fn exh_index(total: u64) -> u64 {
 fn main() {
     let mut scs = Vec::new();
     scs.extend(c01::scenarios());
+    scs.extend(transport::scenarios());
     scs.extend(c12::scenarios());
     scs.extend(c14::scenarios());
     scs.extend(merkle::scenarios());
